@@ -7,6 +7,10 @@ Families:
          log_trick x 8 bounds modes, lam cycling through {1,2,1/2,3}
   rand   random integer-coefficient spin polynomials (n<=4, degree<=3, raw keys with unsorted / repeated labels)
   seq    sequences of 2..4 constraints on one PCSO (ancilla hand-off between the PCSO and its helper PCBOs)
+  run    running-expression histories: ONE PUSO / PCSO object is kept by the harness, passed as H, then mutated in place
+         (`expr -= 2`, `expr[k] += c`, `expr *= -1`) to build the next constraint, passed again, ... and mutated once
+         more after the last call; the recorded constraints and is_solution_valid must keep the values H had at the
+         time of each call (the model is pure: it records the value at call time)
   lbl    the same abstract case under all four label realisations must give the same abstract result
 
 Every case is run on the real `qubovert.PCSO` and on the Lean model (`op: pcso_cons`); compared exactly after
@@ -28,7 +32,8 @@ from .common import Labels, fs, exc_name, canon_terms, ANC
 CEXT = "plain"
 RULE = ("calls PCSO.add_constraint_R_zero(H, lam, log_trick, bounds, suppress_warnings) on one PCSO, 1..4 calls per case; "
         "H integer-valued on spins (integer coefficients, or the exact spin form of an integer boolean template), n<=4, "
-        "degree<=3, given as dict / PUSO / PCSO, 4 label realisations, int/Fraction or dyadic float coefficients; "
+        "degree<=3, given as dict / PUSO / PCSO or as ONE kept PUSO/PCSO object mutated in place between and after the calls "
+        "(running-expression histories), 4 label realisations, int/Fraction or dyadic float coefficients; "
         "6 relations x log_trick x bounds modes {none, (None,None), exact, loose, left, right, fractional loose} "
         "(valid for the range of H) x lam in {1,2,1/2,3} (+ lam=0 rarely); non-trivial = some step adds a penalty with "
         ">=2 terms; distinct = distinct case JSON")
@@ -236,6 +241,75 @@ def rand_case(rng, steps=1):
     seq = [rand_step(rng, n) for _ in range(steps)]
     return mk_case("rand" if steps == 1 else "seq", seq, rng.choice(Labels.STYLES))
 
+def canon_items(items):
+    """generator-side canonical form {sorted odd-multiplicity ids: Fraction} of raw spin items"""
+    d = {}
+    for k, v in items:
+        key = tuple(sorted(i for i in set(k) if k.count(i) % 2 == 1))
+        d[key] = d.get(key, 0) + Fraction(v)
+    return {k: v for k, v in d.items() if v != 0}
+
+def next_target(rng, prev, n):
+    """the next value of the running expression: a constant shift (`expr -= 2`), a sign flip (`expr *= -1`), a few
+    changed terms, the same value again (object shared by two constraints), or something unrelated"""
+    r = rng.random()
+    d = dict(canon_items(prev))
+    if r < 0.35:
+        d[()] = d.get((), 0) + rng.choice([-2, -1, 1, 2])
+    elif r < 0.45:
+        d = {k: -v for k, v in d.items()}
+    elif r < 0.7:
+        for _ in range(rng.choice([1, 1, 2])):
+            ln = rng.choice([1, 1, 2])
+            key = tuple(sorted(rng.sample(range(n), min(ln, n))))
+            d[key] = d.get(key, 0) + rng.choice([-2, -1, 1, 1, 2])
+    elif r < 0.8:
+        pass
+    else:
+        return rand_items(rng, n)
+    return items_of({k: v for k, v in d.items() if v != 0})
+
+def run_case(rng, steps):
+    n = rng.choice([2, 3, 3, 4])
+    obj = rng.choice(["PUSO", "PCSO", "PCSO"])
+    seq, items = [], None
+    for _ in range(steps):
+        if items is None:
+            items = rand_items(rng, n) if rng.random() < 0.6 else items_of({(i,): 1 for i in range(n)})
+        else:
+            items = next_target(rng, items, n)
+        rel = rng.choice(RELS)
+        lam = rng.choice(LAMS + (["0"] if rng.random() < 0.05 else []))
+        st = make_step(rng, items, n, rel, rng.random() < 0.8, rng.choice(BMODES), lam, sup=rng.random() < 0.1,
+                       hkind="expr")
+        seq.append(st)
+    c = mk_case("run", seq, rng.choice(Labels.STYLES))
+    c["n"] = max(c["n"], n)
+    c["running"] = obj
+    c["post"] = items_of(canon_items(next_target(rng, items, n) + [[[], rng.choice(["-2", "3"])]]))
+    return c
+
+def fixed_run_cases():
+    """the documented style: expr = z0 + z1 + z2; add(expr >= 0); expr -= 2; add(expr <= 0); ..."""
+    out = []
+    base = {(0,): 1, (1,): 1, (2,): 1}
+    shifted = dict(base); shifted[()] = -2
+    prod = {(0, 1): 1, (2,): 1}
+    prod1 = dict(prod); prod1[()] = 1
+    T = [[("ge", base), ("le", shifted)], [("ne", prod), ("lt", prod1)], [("eq", base), ("eq", base), ("gt", shifted)],
+         [("le", shifted), ("ge", base), ("ne", {(0,): 1, (1,): -1})]]
+    rng = __import__("random").Random(7)
+    idx = 0
+    for hist in T:
+        for obj in ("PUSO", "PCSO"):
+            for lam in ("1", "2"):
+                seq = [make_step(rng, items_of(H), 3, rel, True, "none", lam, hkind="expr") for rel, H in hist]
+                c = mk_case("run", seq, Labels.STYLES[idx % 4]); idx += 1
+                c["running"] = obj
+                c["post"] = items_of({(0,): 1, (): 5})
+                out.append(c)
+    return out
+
 # ------------------------------------------------------------------ implementation side
 
 def num_of(s, coef):
@@ -264,6 +338,37 @@ def build_H(st, L):
         return H2
     return d
 
+def morph(expr, items, coef, L):
+    """turn the kept object into the polynomial `items` by IN-PLACE operations only (`expr += c`, `expr -= c`,
+    `expr *= -1`, `expr[k] += delta`); returns the list of operations performed"""
+    tgt = {frozenset(L.key(k)): v for k, v in canon_items(items).items()}
+    keyof = {frozenset(k): k for k in expr}
+    cur = {frozenset(k): Fraction(v) for k, v in expr.items()}
+    ops = []
+    if cur and all(tgt.get(k, 0) == -v for k, v in cur.items()) and set(tgt) == set(cur):
+        expr *= -1
+        return ["imul -1"]
+    for fsk in sorted(set(tgt) | set(cur), key=lambda f: (len(f), sorted(map(str, f)))):
+        delta = tgt.get(fsk, 0) - cur.get(fsk, 0)
+        if delta == 0:
+            continue
+        dv = num_of(fs(delta), coef)
+        if not fsk:
+            if delta < 0:
+                expr -= -dv
+                ops.append("isub %s" % -delta)
+            else:
+                expr += dv
+                ops.append("iadd %s" % delta)
+        else:
+            key = keyof.get(fsk)
+            if key is None:
+                ids = sorted(L.ident(x) for x in fsk)
+                key = L.key(ids)
+            expr[key] += dv
+            ops.append("item %s" % delta)
+    return ops
+
 def terms_ids(d, L):
     """{frozenset(ids): Fraction} of a model's terms"""
     out = {}
@@ -280,6 +385,7 @@ def run_impl(case, style=None):
     H = qv.PCSO()
     outs, facts, warns = [], [], []
     captured = []
+    running = None
     orig = pcmod._empty_pcbo
 
     def spy(pcso):
@@ -300,7 +406,18 @@ def run_impl(case, style=None):
                 kw["bounds"] = (num_of(st["lo"], st["coef"]), num_of(st["hi"], st["coef"]))
             step_warns = []
             try:
-                arg = build_H(st, L)
+                if st["hkind"] == "expr":
+                    if running is None:
+                        running = getattr(qv, case["running"])()
+                    morph(running, st["H"], st["coef"], L)
+                    want = {frozenset(L.key(k)): v for k, v in canon_items(st["H"]).items()}
+                    got = {frozenset(k): Fraction(v) for k, v in running.items()}
+                    if want != got:
+                        raise common.Infra("running expression could not be brought to %r by in-place edits: %r" % (
+                            st["H"], dict(running)))
+                    arg = running
+                else:
+                    arg = build_H(st, L)
                 del captured[:]
                 with warnings.catch_warnings(record=True) as w:
                     warnings.simplefilter("always")
@@ -308,6 +425,8 @@ def run_impl(case, style=None):
                 for x in w:
                     m = str(x.message)
                     step_warns.append("always" if "always" in m else "unsat" if "cannot" in m else m)
+            except common.Infra:
+                raise
             except Exception as e:
                 outs.append({"err": exc_name(e)})
                 facts.append({"err": exc_name(e) + ": " + str(e)[:200]})
@@ -330,6 +449,14 @@ def run_impl(case, style=None):
                           "ret_self": r is H, "ncaptured": len(captured),
                           "rec": {rel: [dict(P) for P in lst] for rel, lst in H.constraints.items()},
                           "L": L})
+        if running is not None and case.get("post") is not None:
+            # the caller goes on using its expression object after the last constraint was added
+            morph(running, case["post"], "exact", L)
+            valid = [bool(H.is_solution_valid({L.lab(i): v for i, v in enumerate(z)})) for _, z in spins(n)]
+            outs.append({"post": {"terms": canon_terms(H, L), "anc": H.num_ancillas, "valid": valid,
+                                  "cons": {rel: [canon_terms(P, L) for P in lst] for rel, lst in H.constraints.items()}}})
+            facts.append({"post": True, "valid": valid, "L": L,
+                          "rec": {rel: [dict(P) for P in lst] for rel, lst in H.constraints.items()}})
     finally:
         pcmod._empty_pcbo = orig
     return outs, facts
@@ -359,12 +486,39 @@ def wht_table(F, order):
         h *= 2
     return t, den
 
+def check_recorded(tag, f, n, ok_so_far, recorded):
+    """is_solution_valid = all relations that were added hold (each H as it was when it was added), and the recorded
+    constraints are those polynomials"""
+    for b in range(1 << n):
+        if f["valid"][b] != ok_so_far[b]:
+            return "%s: is_solution_valid(z=%s) = %s but the constraints that were added say %s" % (
+                tag, [(-1 if b >> i & 1 else 1) for i in range(n)], f["valid"][b], ok_so_far[b])
+    L = f["L"]
+    for rel in RELS:
+        mine = [h for r, h in recorded if r == rel]
+        theirs = f["rec"].get(rel, [])
+        if len(mine) != len(theirs):
+            return "%s: %d constraints recorded under %r, expected %d" % (tag, len(theirs), rel, len(mine))
+        for hm, ht in zip(mine, theirs):
+            for _, z in spins(n):
+                tv = Fraction(0)
+                for k, v in ht.items():
+                    m_ = Fraction(v)
+                    for lab in k:
+                        m_ *= z[L.ident(lab)]
+                    tv += m_
+                if tv != hval(hm, z):
+                    return "%s: a constraint recorded under %r is not the polynomial that was added (at z=%s: %s vs %s)" % (
+                        tag, rel, z, tv, hval(hm, z))
+    return None
+
 def oracle(case, facts, ctx=None):
     n = case["n"]
     ok_so_far = [True] * (1 << n)
     seen_labels = set()
     recorded = []
-    for si, (st, f) in enumerate(zip(case["seq"], facts)):
+    steps = list(zip(case["seq"], facts))
+    for si, (st, f) in enumerate(steps):
         tag = "step %d (%s, lam=%s, log_trick=%s, bounds=(%s,%s))" % (si, st["rel"], st["lam"], st["lt"], st["lo"], st["hi"])
         if "err" in f:
             return "%s raised %s" % (tag, f["err"])
@@ -402,28 +556,10 @@ def oracle(case, facts, ctx=None):
         hv_all = [hval(st["H"], z) for _, z in spins(n)]
         for b in range(1 << n):
             ok_so_far[b] = ok_so_far[b] and rel_holds(st["rel"], hv_all[b])
-            if f["valid"][b] != ok_so_far[b]:
-                return "%s: is_solution_valid(z=%s) = %s but the recorded relations say %s" % (
-                    tag, [(-1 if b >> i & 1 else 1) for i in range(n)], f["valid"][b], ok_so_far[b])
-        # ... and the recorded constraints are the spin polynomials that were passed in
         recorded.append((st["rel"], st["H"]))
-        L = f["L"]
-        for rel in RELS:
-            mine = [h for r, h in recorded if r == rel]
-            theirs = f["rec"].get(rel, [])
-            if len(mine) != len(theirs):
-                return "%s: %d constraints recorded under %r, expected %d" % (tag, len(theirs), rel, len(mine))
-            for hm, ht in zip(mine, theirs):
-                for _, z in spins(n):
-                    tv = Fraction(0)
-                    for k, v in ht.items():
-                        m_ = Fraction(v)
-                        for lab in k:
-                            m_ *= z[L.ident(lab)]
-                        tv += m_
-                    if tv != hval(hm, z):
-                        return "%s: a constraint recorded under %r is not the polynomial passed in (at z=%s: %s vs %s)" % (
-                            tag, rel, z, tv, hval(hm, z))
+        bad = check_recorded(tag, f, n, ok_so_far, recorded)
+        if bad:
+            return bad
         if lam == 0:
             if F or f["anc_after"] != f["anc_before"]:
                 return "%s: lam = 0 but terms / ancillas were added" % tag
@@ -465,6 +601,11 @@ def oracle(case, facts, ctx=None):
             if not holds and Fraction(mn, den) < lam:
                 return "%s: H(z)=%s violates the relation at z=%s but the penalty can be as low as %s < lam" % (
                     tag, hv, z, Fraction(mn, den))
+    if len(facts) > len(case["seq"]) and facts[-1].get("post") and not any("err" in f for f in facts):
+        bad = check_recorded("after the last call, once the caller modified its expression object in place", facts[-1],
+                             n, ok_so_far, recorded)
+        if bad:
+            return bad
     return None
 
 # ------------------------------------------------------------------ driver of the check
@@ -495,7 +636,7 @@ def norm_model(m, ctx):
 def nontrivial(case, outs):
     prev = 0
     for o in outs:
-        if "err" in o:
+        if "err" in o or "post" in o:
             continue
         if abs(len(o["terms"]) - prev) >= 2:
             return True
@@ -509,6 +650,8 @@ def process(ctx, cases, all_styles=False):
         ctx.case(c, nontrivial(c, outs))
         ctx.traces += 1
         ctx.count("family:" + c["family"])
+        if c.get("running"):
+            ctx.count("running:" + c["running"])
         for st, o in zip(c["seq"], outs):
             ctx.count("rel:%s:%s" % (st["rel"], "err" if "err" in o else "ok"))
             ctx.count("bounds:%s" % ("none" if st["lo"] is None and st["hi"] is None else
@@ -519,6 +662,8 @@ def process(ctx, cases, all_styles=False):
             ctx.diff(c["family"], c, outs, m)
             continue
         mm = norm_model(m, ctx)
+        if outs and "post" in outs[-1] and mm and "err" not in mm[-1]:
+            mm.append({"post": {k: mm[-1][k] for k in ("terms", "anc", "valid", "cons")}})
         cmp_outs = []
         for o, mo in zip(outs, mm):
             o = dict(o)
@@ -555,7 +700,11 @@ def check(ctx):
     for i, c in enumerate(seqs):
         if i % 7 == 0:
             c["allstyles"] = True
-    process(ctx, cases + rnd + seqs)
+    runs = fixed_run_cases() + [run_case(rng, rng.choice([2, 2, 3, 4])) for _ in range(ctx.scale(350, 5000))]
+    for i, c in enumerate(runs):
+        if i % 7 == 0:
+            c["allstyles"] = True
+    process(ctx, cases + rnd + seqs + runs)
     missing = [t for t in ALL_TAGS if ctx.hist.get("branch:" + t, 0) < 5]
     if missing:
         raise common.Infra("coverage self-check: helper branches hit fewer than 5 times: %s" % missing)
@@ -573,7 +722,10 @@ def search(ctx):
     for d in ctx.diffs[:40]:
         c = d["case"]
         for i, st in enumerate(c["seq"]):
-            extra.append(mk_case("search", c["seq"][:i + 1], c["labels"]))
+            pre = mk_case("search", c["seq"][:i + 1], c["labels"])
+            if c.get("running"):
+                pre["running"], pre["post"], pre["n"] = c["running"], c.get("post"), c["n"]
+            extra.append(pre)
             n = case_n([st])
             for rel in RELS:
                 for lt in (True, False):
@@ -581,6 +733,7 @@ def search(ctx):
                         extra.append(mk_case("search", [make_step(rng, st["H"], n, rel, lt, mode, st["lam"] if st["lam"] != "0" else "1")],
                                              c["labels"]))
     extra += [rand_case(rng, rng.choice([1, 2, 3])) for _ in range(1500)]
+    extra += fixed_run_cases() + [run_case(rng, rng.choice([2, 3])) for _ in range(500)]
     for c in extra:
         _, facts = run_impl(c)
         bad = oracle(c, facts)
